@@ -18,7 +18,7 @@ import os
 import struct
 
 import vlib
-from checks.c05 import (run_proc, run_sharded, hx, ohx, parse_decoded, gen_valid_names, builds, SERIALS, U32, LENS,
+from checks.c05 import (run_proc, run_sharded, hx, ohx, parse_decoded, gen_valid_names, builds, drifted, SERIALS, U32, LENS,
                         BAD_IFACE, BAD_MEMBER, BAD_BUS, BAD_PATH, path_of_len)
 
 BASICS = "ybnqiuxtdhsog"
@@ -217,7 +217,7 @@ def spec_needed(b):
 
 
 def run(ctx):
-    thorough = ctx.tier == "thorough"
+    thorough = ctx.tier == "thorough" or drifted(ctx)
     ctx.rule = ("valid headers = random message type, the fields it requires plus a random subset of the others with valid values, "
                 "in random order, flags cycling through 0..255 in both byte orders, encoded by the extracted specification; "
                 "+ unknown fields (codes 10..255, values of generated signatures up to depth 3 incl. nested variants up to the "
@@ -414,7 +414,11 @@ def run(ctx):
             problems.append("the decoder %s a header the specification (proved decoder model) %s" % (
                 "accepts" if di["ok"] else "rejects", "rejects" if di["ok"] else "accepts"))
         elif di["ok"] and oi != om:
-            problems.append("decoded header differs from what the bytes say according to the specification model")
+            if oi.split(" N:")[0] != om.split(" N:")[0]:
+                problems.append("decoded header differs from what the bytes say according to the specification model")
+            else:
+                problems.append("the message after the header (zero padding to 8, exactly body_len body bytes) is accepted/rejected "
+                                "differently from the specification model")
         if problems:
             ctx.disagreements_checked += 1
             ctx.violation(problems[0], {"bytes": hx(b), "nfds": nf, "kind": kind, "impl": oi[:1500], "spec_model": om[:1500], "all": problems})
